@@ -332,7 +332,12 @@ def JwtSite.shape : JwtSite → Shape
   | .assertion => [.k .authentication, .dyn]
   | .payloadMarshal => [.k .internal, .dyn]
 
-/-- the sites reached only after a token was found in the request and parsed -/
+/-- the sites reached only after a token was found in the request and parsed. `signature` is the failure of
+`token.Claims(key, …)`: the signature does not verify (an error of go-jose), *or it verifies and the payload cannot be
+decoded into `oauth2.Claims`* — a date outside of the years 1..9999 or no number at all, an audience / scopes value of
+a wrong JSON type (a configuration error of the claim type), a string member of another type (an error of the JSON
+library). Likewise `IntroSite.unmarshal` for an introspection response and `GenSite.lifespan` for a session. These
+causes are run-time errors of called packages: `World.wf` demands that they contain no argument error. -/
 def JwtSite.verifies : JwtSite → Bool
   | .issuersRequired | .noToken | .parse | .nonCanonical => false
   | _ => true
